@@ -18,7 +18,7 @@ TOnone == (1 :> -1) @@ (2 :> -1) @@ (3 :> -1)
 TO2 == (1 :> -1) @@ (2 :> 1) @@ (3 :> -1)
 TO0 == (1 :> -1) @@ (2 :> 0) @@ (3 :> -1)
 Cfg(o, mc, mk, ex, to, mux, mg) ==
-  [originOf |-> o, maxConn |-> mc, maxKeep |-> mk, expiry |-> ex, poolTO |-> to, mux |-> mux, muxGuess |-> mg, noKeep |-> {}, dev |-> {}]
+  [originOf |-> o, maxConn |-> mc, maxKeep |-> mk, expiry |-> ex, poolTO |-> to, mux |-> mux, muxGuess |-> mg, noKeep |-> {}, dev |-> {}, threads |-> FALSE]
 CfgNK(o, mc, mk, ex, to, mux, mg, nk) == [Cfg(o, mc, mk, ex, to, mux, mg) EXCEPT !.noKeep = nk]
 \* quick: one connection, keep-alive with expiry, one pool timeout
 CfgsQ1 == {Cfg(OrgAAB, 1, 1, 1, TO2, {}, {}), CfgNK(OrgAAB, 1, 1, -1, TOnone, {}, {}, {1})}
@@ -46,6 +46,13 @@ DevReconn == {"ReconnectOnFailed"}
 TO3 == (1 :> -1) @@ (2 :> 2) @@ (3 :> 0)
 TO4 == (1 :> -1) @@ (2 :> 1) @@ (3 :> 3)
 CfgsTO == {Cfg(OrgAAB, 1, 1, -1, TO3, {}, {}), Cfg(OrgABA, 1, 1, -1, TO4, {}, {})}
+\* the synchronous pool shared by threads (C08): no faults, no cancellation, no time
+Th(c) == [c EXCEPT !.threads = TRUE]
+CfgsTh1 == {Th(Cfg(OrgAAB, 1, 1, -1, TOnone, {}, {})), Th(Cfg(OrgABA, 1, 0, -1, TOnone, {}, {}))}
+CfgsTh2 == {Th(Cfg(OrgABA, 2, 1, -1, TOnone, {}, {})), Th(Cfg(OrgAAB, 2, 0, -1, TOnone, {}, {}))}
+CfgsThL == {Th(Cfg(OrgAA2, 1, 1, -1, TOnone2, {}, {})), Th(Cfg(OrgAB2, 1, 1, -1, TOnone2, {}, {})), Th(Cfg(OrgAB2, 1, 0, -1, TOnone2, {}, {}))}
+NoStyles == {}
+DevActEv == {"ActivateEvicted"}
 DevLimit == {"CreateAtLimit"}
 DevNoRemove == {"ForgetRemove"}
 DevNoPass == {"NoPassOnLeave"}
